@@ -611,11 +611,13 @@ impl Property for C09 {
             1 => Just(Ev::PollStream { sel: 0 }),
         ]
         .boxed();
-        vec(ev, 1..tier.pick(30, 80))
-            .prop_map(|evs| {
+        // the server's Receive Maximum (small here) limits the client's publishes only: any number
+        // of inbound exchanges may be open
+        (vec(ev, 1..tier.pick(30, 80)), rm_small(), prologue_variant())
+            .prop_map(|(evs, receive_max, prologue)| {
                 let mut events = c09_prologue();
                 events.extend(evs);
-                Scenario { receive_max: None, max_packet_size: None, id_offset: 0, prologue: 0, events }
+                Scenario { receive_max, max_packet_size: None, id_offset: 0, prologue: prologue & 127, events }
             })
             .boxed()
     }
@@ -650,7 +652,17 @@ impl Property for C09 {
             events.extend(evs);
             Scenario { receive_max: None, max_packet_size: None, id_offset: 0, prologue: 0, events }
         };
-        Box::new(sequences(alphabet, tier.pick(6, 8), worker, workers).map(mk).chain(sequences(both, tier.pick(7, 9), worker, workers).map(mk)))
+        let small_r = move |evs: Vec<Ev>| {
+            let mut s = mk(evs);
+            s.receive_max = Some(1);
+            s
+        };
+        Box::new(
+            sequences(alphabet.clone(), tier.pick(6, 8), worker, workers)
+                .map(mk)
+                .chain(sequences(both, tier.pick(7, 9), worker, workers).map(mk))
+                .chain(sequences(alphabet, tier.pick(5, 7), worker, workers).map(small_r)),
+        )
     }
 
     fn assumptions() -> Vec<String> {
